@@ -1,10 +1,12 @@
 import Driver.Proto
 import Driver.C12
+import Driver.C12Mon
 import Driver.C16
 import Driver.C16Mon
 
 def suites : List (String × Driver.Suite) :=
   Driver.C12.suites ++
+  Driver.C12Mon.suites ++
   Driver.C16.suites ++
   Driver.C16Mon.suites
 
